@@ -1,14 +1,26 @@
 // C13 harness.
-//  world A: the real tbox::terminal::Terminal with a recording Connection and probe command
-//           nodes (ops open/recv/pass/opt/winsz/close + node-tree ops);
-//  world B: the real Telnetd::Impl / TcpRpc::Impl framing code driven directly
-//           (onTcpConnected / onTcpReceived with an exactly sized Buffer, so that a read past
-//           the received bytes is a heap-buffer-overflow for ASan) against a recording
-//           TerminalInteract;
+//  world A: ONE real tbox::terminal::Terminal (one node tree) shared by eight session slots:
+//           slots 0-3  sessions on a recording Connection (ops sel/open/recv/opt/winsz/close),
+//           slots 4,5  two telnet clients of one real Telnetd::Impl, slot 6 a client of the real
+//                      TcpRpc::Impl (ops xconn/xrecv/xdisc; TcpServer is a recording stub defined
+//                      here, so what the services send and whom they disconnect is observable and
+//                      the receive Buffer is exactly sized: a read past the received bytes is a
+//                      heap-buffer-overflow for ASan),
+//           slot 7     the real Stdio::Impl over the real StdioStream/BufferedFd with fds 0 and 1
+//                      redirected to pipes (ops sstart/srecv/sstop; the op protocol itself runs
+//                      on duplicates of the original fds);
+//           pass = one drained loop pass; teardown = destroy services, Terminal, then the Loop
+//           WITHOUT draining first (a host shutting down while an exit task is queued);
+//           probe command nodes, node-tree ops, split (util::SplitCmdline directly).
+//  world B: Telnetd::Impl / TcpRpc::Impl against a recording TerminalInteract (framing events).
 //  mode `dump`: the key scanner's complete transition table (BFS over reachable step_ values
 //           x 256 bytes) in the text format props/C13/plugin.py turns into Gen.lean.
-// Every line is flushed at once: a crash must be attributed to the right case.
+// Lines of one op are grouped by session slot (order between different sessions is not part of the
+// property); every line is flushed at once: a crash must be attributed to the right case.
 #include "vh.h"
+#include <fcntl.h>
+#include <signal.h>
+#include <unistd.h>
 #include <algorithm>
 #include <cstring>
 #include <deque>
@@ -25,7 +37,9 @@
 #include <tbox/base/object_pool.hpp>
 #include <tbox/event/loop.h>
 #include <tbox/network/tcp_server.h>
+#include <tbox/network/stdio_stream.h>
 #include <tbox/util/buffer.h>
+#include <tbox/util/split_cmdline.h>
 
 // the scanner's step_, and the services' Impl classes, are private: open them for the harness
 #define private public
@@ -36,53 +50,154 @@
 #include <tbox/terminal/connection.h>
 #include <tbox/terminal/service/telnetd.h>
 #include <tbox/terminal/service/tcp_rpc.h>
+#include <tbox/terminal/service/stdio.h>
 #include <tbox/terminal/impl/service/telnetd.h>
 #include <tbox/terminal/impl/service/tcp_rpc.h>
+#include <tbox/terminal/impl/service/stdio.h>
 #undef private
 #undef protected
 
 using namespace tbox;
 using namespace tbox::terminal;
 
-// ------------------------------------------------------------------ event recording
-static std::vector<std::string> g_ev;     // lines of the current op
-static std::string g_tx;                  // pending (merged) bytes sent to the client
-static void flush_tx() { if (!g_tx.empty()) { g_ev.push_back("P tx " + vh::hex(g_tx)); g_tx.clear(); } }
-static void ev(const std::string &s) { flush_tx(); g_ev.push_back(s); }
-static void emit() { flush_tx(); for (auto &l : g_ev) std::cout << l << "\n"; g_ev.clear(); std::cout.flush(); }
+// ------------------------------------------------------------------ protocol I/O (not on fd 0/1)
+static FILE *g_in = nullptr, *g_out = nullptr;
+static void outln(const std::string &s) { fputs(s.c_str(), g_out); fputc('\n', g_out); fflush(g_out); }
+
+// ------------------------------------------------------------------ event recording, per slot
+static const int kSlots = 8, kNoSlot = 8;          // index 8: lines of the op itself / world B
+static std::vector<std::string> g_ev[kSlots + 1];
+static std::string g_tx[kSlots + 1];
+static int g_op_slot = kNoSlot;
+static void flush_tx(int k) {
+    if (!g_tx[k].empty()) {
+        g_ev[k].push_back((k == kNoSlot ? "P tx " : "P tx " + std::to_string(k) + " ") + vh::hex(g_tx[k]));
+        g_tx[k].clear();
+    }
+}
+static void ev(int k, const std::string &s) { flush_tx(k); g_ev[k].push_back(s); }
+static void ev(const std::string &s) { ev(kNoSlot, s); }
+static void tx(int k, const void *p, size_t n) { g_tx[k].append((const char *)p, n); }
+static void clear_events() { for (int k = 0; k <= kSlots; ++k) { g_ev[k].clear(); g_tx[k].clear(); } }
+static void emit() {
+    for (int k = 0; k <= kSlots; ++k) { flush_tx(k); for (auto &l : g_ev[k]) outln(l); }
+    clear_events();
+}
+
+// ------------------------------------------------------------------ the recording TcpServer stub
+// (modules/network/tcp_server.cpp is NOT linked: Telnetd/TcpRpc talk to this one)
+static std::map<network::TcpServer::ConnToken, int> g_ct_slot;
+static void on_stub_disconnect(int slot);      // the client of that slot is gone
+namespace tbox { namespace network {
+struct TcpServer::Data { };
+TcpServer::TcpServer(event::Loop *) : d_(new Data) { }
+TcpServer::~TcpServer() { delete d_; }
+bool TcpServer::initialize(const SockAddr &, int) { return true; }
+void TcpServer::setConnectedCallback(const ConnectedCallback &) { }
+void TcpServer::setDisconnectedCallback(const DisconnectedCallback &) { }
+void TcpServer::setReceiveCallback(const ReceiveCallback &, size_t) { }
+bool TcpServer::start() { return true; }
+void TcpServer::stop() { }
+void TcpServer::cleanup() { }
+bool TcpServer::send(const ConnToken &c, const void *p, size_t n) {
+    auto it = g_ct_slot.find(c);
+    if (it == g_ct_slot.end()) return false;
+    tx(it->second, p, n);
+    return true;
+}
+bool TcpServer::disconnect(const ConnToken &c) {
+    auto it = g_ct_slot.find(c);
+    if (it == g_ct_slot.end()) return false;
+    int slot = it->second;
+    ev(slot, "P closed " + std::to_string(slot));
+    g_ct_slot.erase(it);
+    on_stub_disconnect(slot);
+    return true;
+}
+} }
 
 // ------------------------------------------------------------------ world A
+static void park_std_fds();
 struct RecConn : public Connection {
+    int slot = 0;
     SessionToken tok;
     virtual bool send(const SessionToken &st, char ch) override {
-        if (st != tok) { ev("P tx-other"); return false; }
-        g_tx.push_back(ch); return true;
+        if (st != tok) { ev(slot, "P tx-other"); return false; }
+        tx(slot, &ch, 1); return true;
     }
     virtual bool send(const SessionToken &st, const std::string &str) override {
-        if (st != tok) { ev("P tx-other"); return false; }
-        g_tx += str; return true;
+        if (st != tok) { ev(slot, "P tx-other"); return false; }
+        tx(slot, str.data(), str.size()); return true;
     }
-    virtual bool endSession(const SessionToken &st) override { ev(st == tok ? "P end" : "P end-other"); return true; }
+    virtual bool endSession(const SessionToken &st) override {
+        ev(slot, (st == tok ? "P end " : "P end-other ") + std::to_string(slot)); return true; }
     virtual bool isValid(const SessionToken &) const override { return true; }
     virtual ~RecConn() {}
+};
+
+struct Client {                 // a telnet / raw-TCP client (slots 4..6)
+    network::TcpServer::ConnToken ct;
+    int state = 0;              // 0 never connected, 1 connected, 2 gone
+    std::vector<uint8_t> pending;
 };
 
 struct WorldA {
     event::Loop *loop = nullptr;
     Terminal *term = nullptr;
-    RecConn conn;
-    bool opened = false;
+    RecConn conn[4];
+    bool opened[4] = {false, false, false, false};
+    int cur = 0;
     std::vector<NodeToken> nodes;      // harness index -> token (0 = root)
+    Telnetd::Impl *tel = nullptr;
+    TcpRpc::Impl *rpc = nullptr;
+    Client cli[3];
+    size_t ct_gen = 0;
+    Stdio::Impl *stdio = nullptr;
+    int stdio_state = 0;               // 0 not started, 1 running, 3 stopped
+    int in_w = -1, out_r = -1;         // our ends of the pipes behind fd 0 / fd 1
     WorldA() {
         loop = event::Loop::New();
         term = new Terminal(loop);
         term->setWelcomeText("Welcome\r\n");
         nodes.push_back(term->rootNode());
+        for (int i = 0; i < 4; ++i) conn[i].slot = i;
+        tel = new Telnetd::Impl(loop, term);
+        rpc = new TcpRpc::Impl(loop, term);
     }
-    // drain queued tasks while the terminal still exists (the order a host program has to keep), silently
-    ~WorldA() { pass(); g_ev.clear(); g_tx.clear(); delete term; delete loop; }
     void pass() { loop->runNext([] {}, "verif-pass"); loop->runLoop(event::Loop::Mode::kOnce); }
+    void drain_stdout() {
+        if (out_r < 0) return;
+        char buf[4096];
+        for (;;) { ssize_t n = ::read(out_r, buf, sizeof buf); if (n <= 0) break; tx(7, buf, (size_t)n); }
+    }
+    void destroy(bool drain) {
+        if (drain) { pass(); drain_stdout(); clear_events(); }
+        bool had_stdio = stdio != nullptr;
+        delete stdio; stdio = nullptr;
+        if (in_w >= 0) { ::close(in_w); ::close(out_r); in_w = out_r = -1; }
+        if (had_stdio) park_std_fds();
+        delete tel; delete rpc; tel = nullptr; rpc = nullptr;
+        for (auto &c : cli) g_ct_slot.erase(c.ct);
+        delete term; term = nullptr;
+        delete loop; loop = nullptr;        // runs / drops whatever is still queued
+    }
+    // the order a host program should keep (drain, then destroy), silently
+    ~WorldA() { if (loop) destroy(true); }
 };
+
+static WorldA *g_A = nullptr;
+// keep fd 0 and fd 1 occupied (by /dev/null) whenever the stdio service does not own them, so that pipe()
+// never hands them out
+static void park_std_fds() {
+    int nul = open("/dev/null", O_RDWR);
+    if (nul < 0) return;
+    if (nul != 0) dup2(nul, 0);
+    if (nul != 1) dup2(nul, 1);
+    if (nul > 1) ::close(nul);
+}
+static void on_stub_disconnect(int slot) {
+    if (g_A && slot >= 4 && slot < 7) { g_A->cli[slot - 4].state = 2; g_A->cli[slot - 4].pending.clear(); }
+}
 
 // ------------------------------------------------------------------ world B
 struct MockTerm : public TerminalInteract {
@@ -120,9 +235,21 @@ struct WorldB {
         tel.reset(new Front<Telnetd::Impl>(loop, &term));
         rpc.reset(new Front<TcpRpc::Impl>(loop, &term));
     }
-    ~WorldB() { pass(); g_ev.clear(); g_tx.clear(); tel.reset(); rpc.reset(); delete loop; }
     void pass() { loop->runNext([] {}, "verif-pass"); loop->runLoop(event::Loop::Mode::kOnce); }
+    ~WorldB() { pass(); clear_events(); tel.reset(); rpc.reset(); delete loop; }
 };
+
+// what TcpConnection does: append to the accumulating receive buffer, call back; here the buffer
+// holds exactly the unconsumed bytes + the new segment (no slack)
+template <class ImplT>
+static void feed(ImplT &impl, const network::TcpServer::ConnToken &ct, std::vector<uint8_t> &pending, const std::vector<uint8_t> &d) {
+    size_t n = pending.size() + d.size();
+    util::Buffer buf(n);
+    if (!pending.empty()) buf.append(pending.data(), pending.size());
+    if (!d.empty()) buf.append(d.data(), d.size());
+    if (n > 0) impl.onTcpReceived(ct, buf);
+    pending.assign(buf.readableBegin(), buf.readableBegin() + buf.readableSize());
+}
 
 template <class F>
 static bool front_op(WorldB &b, F &f, const std::string &op, const std::vector<std::string> &w) {
@@ -134,14 +261,7 @@ static bool front_op(WorldB &b, F &f, const std::string &op, const std::vector<s
     }
     std::vector<uint8_t> d;
     if (op == "recv" && w.size() == 2 && f.state == 1 && vh::unhex(w[1], d)) {
-        // what TcpConnection does: append to the accumulating receive buffer, call back; here the
-        // buffer holds exactly the unconsumed bytes + the new segment (no slack)
-        size_t n = f.pending.size() + d.size();
-        util::Buffer buf(n);
-        if (!f.pending.empty()) buf.append(f.pending.data(), f.pending.size());
-        if (!d.empty()) buf.append(d.data(), d.size());
-        if (n > 0) f.impl.onTcpReceived(f.ct, buf);
-        f.pending.assign(buf.readableBegin(), buf.readableBegin() + buf.readableSize());
+        feed(f.impl, f.ct, f.pending, d);
         ev("M rest=" + std::to_string(f.pending.size()));
         return true;
     }
@@ -199,14 +319,16 @@ static int dump_scanner() {
             // plain fail (-> state 0) is the default and not listed
         }
     }
-    std::cout << "states " << order.size() << "\n" << rows.str();
+    std::ostringstream o;
+    o << "states " << order.size() << "\n" << rows.str();
     for (size_t k = 0; k < order.size(); ++k) {
         KeyEventScanner s; s.start(); s.step_ = (Step)order[k];
         auto st = s.stop();
-        if (st == KeyEventScanner::Status::kEnsure) std::cout << "s " << k << " e " << kResultNames[(int)s.result()] << "\n";
-        else std::cout << "s " << k << " f\n";
+        if (st == KeyEventScanner::Status::kEnsure) o << "s " << k << " e " << kResultNames[(int)s.result()] << "\n";
+        else o << "s " << k << " f\n";
     }
-    std::cout << "end\n";
+    o << "end";
+    outln(o.str());
     return 0;
 }
 
@@ -214,46 +336,99 @@ static int dump_scanner() {
 static bool idx(const std::string &s, size_t lim, size_t &out) {
     uint64_t v; if (!vh::to_u64(s, v) || v >= lim) return false; out = v; return true;
 }
+static std::string ret(bool r) { return std::string("P ret=") + (r ? "1" : "0"); }
 
 int main(int argc, char **argv) {
+    signal(SIGPIPE, SIG_IGN);
+    g_in = fdopen(dup(0), "r");
+    g_out = fdopen(dup(1), "w");
+    park_std_fds();
     LogOutput_Disable();
     if (argc > 1 && std::string(argv[1]) == "dump") return dump_scanner();
     std::unique_ptr<WorldA> A; std::unique_ptr<WorldB> B;
-    std::string line;
-    while (std::getline(std::cin, line)) {
+    char *lbuf = nullptr; size_t lcap = 0; ssize_t llen;
+    while ((llen = getline(&lbuf, &lcap, g_in)) >= 0) {
+        std::string line(lbuf, (size_t)llen);
+        while (!line.empty() && (line.back() == '\n' || line.back() == '\r')) line.pop_back();
         auto w = vh::words(line);
         if (w.empty()) continue;
         if (w[0] == "case") {
             A.reset(); B.reset();
             A.reset(new WorldA());
-            std::cout << line << "\n"; std::cout.flush();
+            outln(line);
             continue;
         }
         if (!A) A.reset(new WorldA());
         const std::string &op = w[0];
         bool ok = true;
         std::vector<uint8_t> d; uint64_t n = 0, m = 0; size_t i = 0, j = 0;
-        if (op == "open" && w.size() == 2 && vh::to_u64(w[1], n) && n < 4 && !A->opened) {
-            A->conn.tok = A->term->newSession(&A->conn);
-            A->opened = true;
-            A->term->setOptions(A->conn.tok, (uint32_t)n);
-            bool r = A->term->onBegin(A->conn.tok);
-            ev(std::string("P ret=") + (r ? "1" : "0"));
-        } else if (op == "recv" && w.size() == 2 && vh::unhex(w[1], d) && A->opened) {
-            bool r = A->term->onRecvString(A->conn.tok, std::string(d.begin(), d.end()));
-            ev(std::string("P ret=") + (r ? "1" : "0"));
+        int c = A->cur;
+        g_A = A.get();
+        g_op_slot = c;
+        if (op == "xrecv" && w.size() >= 2 && idx(w[1], 7, i)) g_op_slot = (int)i;
+        if (op == "srecv") g_op_slot = 7;
+        if (op == "sel" && w.size() == 2 && idx(w[1], 4, i)) {
+            A->cur = (int)i; ev("P sel");
+        } else if (op == "open" && w.size() == 2 && vh::to_u64(w[1], n) && n < 4 && !A->opened[c]) {
+            A->conn[c].tok = A->term->newSession(&A->conn[c]);
+            A->opened[c] = true;
+            A->term->setOptions(A->conn[c].tok, (uint32_t)n);
+            ev(ret(A->term->onBegin(A->conn[c].tok)));
+        } else if (op == "recv" && w.size() == 2 && vh::unhex(w[1], d) && A->opened[c]) {
+            ev(ret(A->term->onRecvString(A->conn[c].tok, std::string(d.begin(), d.end()))));
         } else if (op == "pass" && w.size() == 1) {
-            A->pass();
+            A->pass(); A->drain_stdout();
             ev("P pass");
-        } else if (op == "opt" && w.size() == 2 && vh::to_u64(w[1], n) && n < 4 && A->opened) {
-            A->term->setOptions(A->conn.tok, (uint32_t)n);
-            ev("P opt=" + std::to_string(A->term->getOptions(A->conn.tok)));
-        } else if (op == "winsz" && w.size() == 3 && vh::to_u64(w[1], n) && vh::to_u64(w[2], m) && n < 65536 && m < 65536 && A->opened) {
-            bool r = A->term->onRecvWindowSize(A->conn.tok, (uint16_t)n, (uint16_t)m);
-            ev(std::string("P ret=") + (r ? "1" : "0"));
-        } else if (op == "close" && w.size() == 1 && A->opened) {
-            bool r = A->term->deleteSession(A->conn.tok);
-            ev(std::string("P ret=") + (r ? "1" : "0"));
+        } else if (op == "teardown" && w.size() == 1) {
+            A->destroy(false);
+            A.reset(new WorldA());
+            g_A = A.get();
+            ev("P teardown");
+        } else if (op == "opt" && w.size() == 2 && vh::to_u64(w[1], n) && n < 4 && A->opened[c]) {
+            A->term->setOptions(A->conn[c].tok, (uint32_t)n);
+            ev("P opt=" + std::to_string(A->term->getOptions(A->conn[c].tok)));
+        } else if (op == "winsz" && w.size() == 3 && vh::to_u64(w[1], n) && vh::to_u64(w[2], m) && n < 65536 && m < 65536 && A->opened[c]) {
+            ev(ret(A->term->onRecvWindowSize(A->conn[c].tok, (uint16_t)n, (uint16_t)m)));
+        } else if (op == "close" && w.size() == 1 && A->opened[c]) {
+            ev(ret(A->term->deleteSession(A->conn[c].tok)));
+        } else if (op == "xconn" && w.size() == 2 && idx(w[1], 7, i) && i >= 4 && A->cli[i - 4].state != 1) {
+            Client &cl = A->cli[i - 4];
+            cl.ct = network::TcpServer::ConnToken(++A->ct_gen + 100, i);
+            cl.pending.clear(); cl.state = 1;
+            g_ct_slot[cl.ct] = (int)i;
+            if (i < 6) A->tel->onTcpConnected(cl.ct); else A->rpc->onTcpConnected(cl.ct);
+            ev("P conn");
+        } else if (op == "xrecv" && w.size() == 3 && idx(w[1], 7, i) && i >= 4 && A->cli[i - 4].state == 1 && vh::unhex(w[2], d)) {
+            Client &cl = A->cli[i - 4];
+            if (i < 6) feed(*A->tel, cl.ct, cl.pending, d); else feed(*A->rpc, cl.ct, cl.pending, d);
+            ev("M rest=" + std::to_string(cl.pending.size()));
+        } else if (op == "xdisc" && w.size() == 2 && idx(w[1], 7, i) && i >= 4 && A->cli[i - 4].state == 1) {
+            Client &cl = A->cli[i - 4];
+            if (i < 6) A->tel->onTcpDisconnected(cl.ct); else A->rpc->onTcpDisconnected(cl.ct);
+            g_ct_slot.erase(cl.ct);
+            cl.state = 2; cl.pending.clear();
+            ev("P disc");
+        } else if (op == "sstart" && w.size() == 1 && A->stdio_state == 0) {
+            int pi[2], po[2];
+            if (pipe(pi) != 0 || pipe(po) != 0) return 4;
+            dup2(pi[0], 0); ::close(pi[0]); dup2(po[1], 1); ::close(po[1]);
+            A->in_w = pi[1]; A->out_r = po[0];
+            fcntl(A->out_r, F_SETFL, fcntl(A->out_r, F_GETFL) | O_NONBLOCK);
+            A->stdio = new Stdio::Impl(A->loop, A->term);
+            A->stdio->initialize();
+            bool r = A->stdio->start();
+            A->stdio_state = 1;
+            A->pass(); A->drain_stdout();
+            ev(ret(r));
+        } else if (op == "srecv" && w.size() == 2 && A->stdio_state == 1 && vh::unhex(w[1], d) && d.size() <= 512) {
+            if (!d.empty() && ::write(A->in_w, d.data(), d.size()) != (ssize_t)d.size()) return 5;
+            A->pass(); A->pass(); A->drain_stdout();
+            ev("P srecv");
+        } else if (op == "sstop" && w.size() == 1 && A->stdio_state == 1) {
+            A->stdio->stop();
+            A->stdio_state = 3;
+            A->pass(); A->drain_stdout();
+            ev("P sstop");
         } else if (op == "mkdir" && w.size() == 1 && A->nodes.size() < 16) {
             size_t id = A->nodes.size();
             A->nodes.push_back(A->term->createDirNode("help-" + std::to_string(id)));
@@ -264,26 +439,32 @@ int main(int argc, char **argv) {
                 [id](const Session &s, const Args &a) {
                     std::string l = "P probe " + std::to_string(id) + " " + std::to_string(a.size());
                     for (auto &x : a) l += " " + vh::hex(x);
-                    ev(l);
+                    if (g_op_slot == 7 && g_A) g_A->drain_stdout();   // what stdio wrote so far comes first
+                    ev(g_op_slot, l);
                     s.send("<" + std::to_string(id) + ">\r\n");
                 }, "help-" + std::to_string(id)));
             ev("P node=" + std::to_string(id));
         } else if (op == "mount" && w.size() == 4 && idx(w[1], A->nodes.size(), i) && idx(w[2], A->nodes.size(), j) && vh::unhex(w[3], d)) {
-            bool r = A->term->mountNode(A->nodes[i], A->nodes[j], std::string(d.begin(), d.end()));
-            ev(std::string("P ret=") + (r ? "1" : "0"));
+            ev(ret(A->term->mountNode(A->nodes[i], A->nodes[j], std::string(d.begin(), d.end()))));
         } else if (op == "umount" && w.size() == 3 && idx(w[1], A->nodes.size(), i) && vh::unhex(w[2], d)) {
-            bool r = A->term->umountNode(A->nodes[i], std::string(d.begin(), d.end()));
-            ev(std::string("P ret=") + (r ? "1" : "0"));
+            ev(ret(A->term->umountNode(A->nodes[i], std::string(d.begin(), d.end()))));
         } else if (op == "rmnode" && w.size() == 2 && idx(w[1], A->nodes.size(), i) && i != 0) {
-            bool r = A->term->deleteNode(A->nodes[i]);
-            ev(std::string("P ret=") + (r ? "1" : "0"));
+            ev(ret(A->term->deleteNode(A->nodes[i])));
+        } else if (op == "split" && w.size() == 2 && vh::unhex(w[1], d)) {
+            std::vector<std::string> args;
+            if (util::SplitCmdline(std::string(d.begin(), d.end()), args)) {
+                std::string l = "P split ok " + std::to_string(args.size());
+                for (auto &x : args) l += " " + vh::hex(x);
+                ev(l);
+            } else ev("P split fail");
         } else if (op.size() > 1 && (op[0] == 't' || op[0] == 'r') &&
                    (op.substr(1) == "conn" || op.substr(1) == "recv" || op.substr(1) == "disc" || op.substr(1) == "end" || op.substr(1) == "send")) {
             if (!B) B.reset(new WorldB());
             ok = (op[0] == 't') ? front_op(*B, *B->tel, op.substr(1), w) : front_op(*B, *B->rpc, op.substr(1), w);
         } else ok = false;
-        if (!ok) { g_ev.clear(); g_tx.clear(); std::cout << "bad-op\n"; std::cout.flush(); continue; }
+        if (!ok) { clear_events(); outln("bad-op"); continue; }
         emit();
     }
+    free(lbuf);
     return 0;
 }
